@@ -335,6 +335,11 @@ def run_case(env, contract, beh, func, mod, assignment, ghost):
         sc["result"] = result
         try:
             ok = env.ev(code, sc, mod)
+        except NameError as e:
+            # the clause uses a ghost function with no run-time counterpart: it cannot be evaluated natively, which says
+            # nothing about the code (never a failure)
+            env.skipped_clauses = getattr(env, "skipped_clauses", set()) | {"%s: %s" % (cname, e)}
+            continue
         except Exception as e:
             ok = False
             expr = expr + "   [evaluation raised %r]" % (e,)
